@@ -174,14 +174,20 @@ def constructor_field_terms(ctx, adt):
     for f in ctx.prog.fns.values():
         if f.impl_self != adt or has_self_receiver(f) or f.impl_derived:
             continue
-        tb = None
+        tb = TermBuilder(f, ctx.prog)
+        # what the constructor RETURNS (fields may be finished by a helper after the literal: `let mut s = Self {..}; s.reset(); s`)
+        r = tb.return_term()
+        rets = [a for a in (r[1] if r[0] == "phi" else (r,)) if a[0] == "adt" and a[1] == adt]
+        if rets:
+            for t in rets:
+                for name, ft in t[3]:
+                    out.setdefault(name, set()).add(ft)
+            continue
         for bi, blk in enumerate(f.blocks):
             if blk.cleanup:
                 continue
             for si, st in enumerate(blk.stmts):
                 if st.k == "assign" and st.rv.k == "aggregate" and st.rv.j.get("adt") == adt:
-                    if tb is None:
-                        tb = TermBuilder(f, ctx.prog)
                     t = tb.rvalue(st.rv, bi, si)
                     for name, ft in t[3]:
                         out.setdefault(name, set()).add(ft)
